@@ -3045,9 +3045,26 @@ def replace_listcomp_append_with_plus(source: str) -> str:
     {{variable}} = {{something}} + [{{something_else}} for {{target}} in {{iterable}}]
     """
     find = core.compile_template(find, something=(ast.ListComp, ast.List, ast.BinOp(op=ast.Add)))
+    root = core.parse(source)
     for before, after, template_match in processing.find_replace(
-        source, find, replace, yield_match=True
+        source, find, replace, root=root, yield_match=True
     ):
+        # The variables of a comprehension are gone when it is done, those of a loop are not,
+        # and the list that is being built cannot be read while it is built
+        loop = next(
+            (node for node in core.walk(root, ast.For) if node.target is template_match.target),
+            None,
+        )
+        loop_variables = {name.id for name in core.walk(template_match.target, ast.Name)}
+        if loop is None or _reads_names_outside(root, loop, loop_variables):
+            continue
+        if isinstance(template_match.variable, ast.Name) and any(
+            name.id == template_match.variable.id
+            for part in (template_match.something_else, template_match.iterable)
+            for name in core.walk(part, ast.Name)
+        ):
+            continue
+
         if isinstance(template_match.root, ast.BinOp):
             if _is_recursive_binop_chain(template_match.root, ast.Add):
                 yield before, after
